@@ -17,12 +17,13 @@ CONSTANTS TypeSets,      \* set of ascending sequences of type ids
           WordLens,      \* set of item lengths (in words)
           DataLenSeqs,   \* set of sequences of data block lengths
           Versions,      \* subset of {3, 4}
+          Crudes,        \* subset of {"none", "size", "both"}: the historic ("crude") header variant
           Fixups,        \* BOOLEAN: also generate consistent-header corruptions
           CorruptAll,    \* BOOLEAN: corrupt every base (FALSE: only the structurally maximal ones)
           Emit           \* BOOLEAN: print the cases
 
-VARIABLES v, df, c
-vars == << v, df, c >>
+VARIABLES v, cr, df, c
+vars == << v, cr, df, c >>
 
 NoCor == [f |-> "none", i |-> 0, val |-> 0, fix |-> FALSE]
 
@@ -100,11 +101,26 @@ Corruptions(L) ==
   \cup UNION { { Cor("dbyte", i, x) : x \in {0, 255} \ {L.data[i][Len(L.data[i])]} }
                : i \in {k \in 1..Len(L.data) : Len(L.data[k]) > 0} }
 
-\* size and swaplen re-derived from the (corrupted) counts, as the document defines them
+\* The reader distinguishes three variants: V3, V4 and V4Crude (format.rs check_size_and_swaplen:
+\* the `size` field of some historic writers does not count the data-size table; `swaplen` may
+\* independently be of either kind).  Every base is laid out in each variant of Crudes and every
+\* corruption family runs on each of them.  A crude file is accepted by the reader but is not
+\* well-formed by the document.
+Crudify(L, k) ==
+  CASE k = "none" -> L
+    [] k = "size" -> [L EXCEPT !.size = @ - 4 * L.nd]
+    [] k = "both" -> [L EXCEPT !.size = @ - 4 * L.nd, !.swaplen = @ - 4 * L.nd]
+
+BaseLayout == Crudify(Layout(v, df), cr)
+
+\* size and swaplen re-derived from the (corrupted) counts, as the document defines them (and in
+\* the crude variant of the base)
 Refix(L) ==
   LET total == TotalSize(L.version, L.nit, L.ni, L.nd, L.si, L.sd) IN
   IF total < 0 THEN L
-  ELSE [L EXCEPT !.size = total - 16, !.swaplen = total - 16 - L.sd]
+  ELSE IF L.nd >= 0 /\ L.nd <= total \div 4
+       THEN Crudify([L EXCEPT !.size = total - 16, !.swaplen = total - 16 - L.sd], cr)
+       ELSE [L EXCEPT !.size = total - 16, !.swaplen = total - 16 - L.sd]
 
 Apply(L, x) ==
   LET M ==
@@ -133,8 +149,10 @@ Apply(L, x) ==
 
 ----------------------------------------------------------------------------
 Init == /\ v \in Versions
+        /\ cr \in Crudes
         /\ df \in Bases
         /\ c = NoCor
+        /\ (cr # "none" => Len(df.data) > 0)      \* without data blocks the variants coincide
 
 \* a base with the maximal number of items and data blocks of the configuration
 MaxData == CHOOSE n \in {Len(dl) : dl \in DataLenSeqs} : \A dl \in DataLenSeqs : Len(dl) <= n
@@ -142,8 +160,8 @@ Rich == Len(df.items) = MaxItems /\ Len(df.data) = MaxData
 
 Next == /\ c = NoCor
         /\ CorruptAll \/ Rich
-        /\ c' \in Corruptions(Layout(v, df))
-        /\ UNCHANGED << v, df >>
+        /\ c' \in Corruptions(BaseLayout)
+        /\ UNCHANGED << v, cr, df >>
 
 Spec == Init /\ [][Next]_vars
 
@@ -176,19 +194,29 @@ RoundTrip(R, doc) ==
   /\ \A k \in 1..Len(df.data) : R.data[k] = [r |-> "ok", b |-> df.data[k]]
   /\ doc
 
+\* an uncorrupted base in any variant is accepted with its content; with data blocks the crude
+\* size field of a version 4 file makes it V4Crude
+CrudeAccepted(R) ==
+  /\ R.open = "ok"
+  /\ R.ver = (IF v = 3 THEN "V3" ELSE IF cr = "none" \/ Len(df.data) = 0 THEN "V4" ELSE "V4Crude")
+  /\ R.items = df.items
+  /\ \A k \in 1..Len(df.data) : R.data[k] = [r |-> "ok", b |-> df.data[k]]
+
 DocImpliesAccept(R, doc) ==
   doc => /\ R.open = "ok"
          /\ \A k \in 1..Len(R.data) : R.data[k].r = "ok"
 
 Laws ==
-  LET L == Apply(Layout(v, df), c)
+  LET L == Apply(BaseLayout, c)
+      wf == c = NoCor /\ cr = "none"
       B == FileBytes(L)
       R == Read(B, << >>)
       doc == ValidDoc(B, << >>)
   IN /\ VerdictTypeOK(R)
-     /\ (c = NoCor => RoundTrip(R, doc))
+     /\ (wf => RoundTrip(R, doc))
+     /\ (c = NoCor => CrudeAccepted(R))
      /\ DocImpliesAccept(R, doc)
-     /\ (Emit => PrintT(<< "C", ToJson([ v |-> v, wf |-> (c = NoCor), doc |-> doc, c |-> c, L |-> L,
+     /\ (Emit => PrintT(<< "C", ToJson([ v |-> v, wf |-> wf, cr |-> cr, doc |-> doc, c |-> c, L |-> L,
                                            pay |-> df.data, n |-> Len(B), sum |-> Adler32(B),
                                            exp |-> Expected(R) ]) >>))
 =============================================================================
